@@ -14,6 +14,7 @@ import (
 	"strings"
 
 	"golang.org/x/tools/go/packages"
+	"golang.org/x/tools/go/ssa"
 )
 
 const (
@@ -53,15 +54,16 @@ func (f *Func) Info() *types.Info { return f.Pkg.TypesInfo }
 
 // Prog is the loaded, type-checked workspace.
 type Prog struct {
-	Fset   *token.FileSet
-	Roots  []*packages.Package          // workspace packages (both modules)
-	ByPath map[string]*packages.Package // every package, dependencies included
-	Funcs  map[string]*Func             // by short key
-	ByObj  map[*types.Func]*Func
-	Order  []*Func // deterministic order
-	Dir    string
-	nfiles int
-	cg     *CG
+	Fset    *token.FileSet
+	Roots   []*packages.Package          // workspace packages (both modules)
+	ByPath  map[string]*packages.Package // every package, dependencies included
+	Funcs   map[string]*Func             // by short key
+	ByObj   map[*types.Func]*Func
+	Order   []*Func // deterministic order
+	Dir     string
+	nfiles  int
+	cg      *CG
+	ssaProg *ssa.Program
 }
 
 // Short strips the module prefix from an import path.
